@@ -4,7 +4,7 @@ import ast
 from ..core.model import AnchorError, FuncInfo
 from ..core.cfg import walk_shallow, cfg_of
 from ..core.facts import U
-from ..engine import fn_name, kwarg, local_defs, returns_of, const_str
+from ..engine import argn, fn_name, kwarg, local_defs, returns_of, const_str
 
 EXPLANATION = (
     "Decides structural clauses of C18: S1 writer/reader agreement of the line format - the literal text the reporter's "
@@ -83,7 +83,7 @@ def s1(ctx, rep):
     prints = [x for x in walk_shallow(w.node) if isinstance(x, ast.Call) and isinstance(x.func, ast.Name) and x.func.id == "print"]
     if len(prints) != 1 or not prints[0].args:
         raise AnchorError("_report_logger: expected exactly one print(...)")
-    text = fold_str(ctx, w, prints[0].args[0])
+    text = fold_str(ctx, w, argn(prints[0], 0))
     if text is None or text.count("\x00") != 1 or not text.endswith("\x00"):
         raise AnchorError(f"_report_logger: printed text is not `<literal><payload>`: {text!r}")
     wprefix = text[:-1]
@@ -91,17 +91,17 @@ def s1(ctx, rep):
     fa = [x for x in walk_shallow(r.node) if isinstance(x, ast.Call) and fn_name(x) in ("findall", "finditer") ]
     if len(fa) != 1:
         raise AnchorError("retrieve: expected one re.findall")
-    pat = fold_str(ctx, r, fa[0].args[0])
+    pat = fold_str(ctx, r, argn(fa[0], 0))
     if pat is None or "\x00" in pat:
         raise AnchorError("retrieve: regular expression is not a foldable constant")
     rprefix, groups, rest, sc = regex_shape(pat)
     rep.put(wprefix == rprefix, "S1", "agreement", "report line prefix: writer f-string == reader regex literal prefix", w,
             prints[0], f"both {wprefix!r}", f"writer prints {wprefix!r}, reader searches for {rprefix!r}: no report is ever parsed")
     # both sides use the same constant
-    tagw = [U(v.value) for v in ast.walk(prints[0].args[0]) if isinstance(v, ast.FormattedValue)
+    tagw = [U(v.value) for v in ast.walk(argn(prints[0], 0)) if isinstance(v, ast.FormattedValue)
             and const_str(ctx, w, v.value) is not None]
-    tagr = [n.id for n in ast.walk(fa[0].args[0] if not isinstance(fa[0].args[0], ast.Name) else
-                                   local_defs(r, fa[0].args[0].id)[0]) if isinstance(n, ast.Name) and n.id.isupper()]
+    tagr = [n.id for n in ast.walk(argn(fa[0], 0) if not isinstance(argn(fa[0], 0), ast.Name) else
+                                   local_defs(r, argn(fa[0], 0).id)[0]) if isinstance(n, ast.Name) and n.id.isupper()]
     rep.put(bool(tagw) and set(tagw) == set(tagr), "S1", "agreement", "report tag: same constant on both sides", r, fa[0],
             f"{tagw} / {tagr}")
     # exactly one group, covering a brace-delimited payload that cannot span lines; no flags
@@ -115,12 +115,12 @@ def s1(ctx, rep):
     # the searched text is the whole captured output: the parameter joined with newlines, nothing filtered out, and
     # the pattern is searched (findall), not anchored at line starts - reports may follow other output on the same line
     param = [p for p in r.params][0]
-    txt = fa[0].args[1]
+    txt = argn(fa[0], 1)
     if isinstance(txt, ast.Name):
         ds = [d for d in local_defs(r, txt.id) if not isinstance(d, tuple)]
         txt = ds[0] if len(ds) == 1 else txt
-    whole = isinstance(txt, ast.Call) and fn_name(txt) == "join" and len(txt.args) == 1 and isinstance(txt.args[0], ast.Name) \
-        and txt.args[0].id == param and not [d for d in local_defs(r, param)]
+    whole = isinstance(txt, ast.Call) and fn_name(txt) == "join" and len(txt.args) == 1 and isinstance(argn(txt, 0), ast.Name) \
+        and argn(txt, 0).id == param and not [d for d in local_defs(r, param)]
     anchored = any(it[0] == sc.AT for it in rest) or pat.startswith("^")
     rep.put(whole and not anchored and fn_name(fa[0]) in ("findall", "finditer"), "S1", "taint",
             "retrieve: the pattern is searched over the entire captured output (no pre-filter, not anchored)", r, fa[0],
@@ -142,8 +142,8 @@ def s1(ctx, rep):
         for st in loop[0].body:
             for x in walk_shallow(st):
                 from ..engine import deref
-                a0 = deref(r, x.args[0]) if isinstance(x, ast.Call) and fn_name(x) == "append" and x.args else None
-                if isinstance(a0, ast.Call) and U(a0.func) == "json.loads" and U(a0.args[0]) == tv:
+                a0 = deref(r, argn(x, 0)) if isinstance(x, ast.Call) and fn_name(x) == "append" and x.args else None
+                if isinstance(a0, ast.Call) and U(a0.func) == "json.loads" and U(argn(a0, 0)) == tv:
                     ok = True
     rep.put(ok, "S1", "agreement", "retrieve: json.loads of each match appended in match order", r, None, "")
 
@@ -189,8 +189,8 @@ def s3(ctx, rep):
     for n in cfg.nodes:
         if n.kind == "stmt" and isinstance(n.ast, ast.Assert):
             for x in ast.walk(n.ast.test):
-                if isinstance(x, ast.Call) and fn_name(x) == "startswith" and x.args and isinstance(x.args[0], ast.Constant):
-                    pre = x.args[0].value
+                if isinstance(x, ast.Call) and fn_name(x) == "startswith" and x.args and isinstance(argn(x, 0), ast.Constant):
+                    pre = argn(x, 0).value
                     asserts.add((n.id, pre))
     if not asserts:
         rep.bad("S3", "must_precede", "Reporter.__call__: reserved-namespace check", f, None,
